@@ -9,6 +9,7 @@ from .collmodel import Node, SHAPES
 # cleared window ("TSW clear ticks are not representable by the legacy scalar delta" - an explicit error, not a silent loss).
 WINDOW_CLEARS = False
 WHOLE_SET_ASSIGN = False        # C04 / C05 / C20: a set assigned as a whole (copy_value_from), also inside dictionaries and bundles
+DYNLIST_CHILD_INVALIDATE = False  # elements of a dynamic list may be invalidated (and written again in the same cycle)
 CONTAINER_INVALIDATE = False     # C04 only: explicit invalidation of a whole list / bundle / dictionary endpoint (op "I")
 
 
@@ -56,7 +57,7 @@ def gen_op(rng, node, effective, universe=6, allow_invalidate=False):
         n = len(node.children)
         i = n if (n == 0 or (n < max(3, universe) and rng.random() < 0.35)) else rng.randrange(n)
         child = node.children[i] if i < n else Node(node.shape[2])
-        cop = gen_op(rng, child, effective, universe, False)
+        cop = gen_op(rng, child, effective, universe, DYNLIST_CHILD_INVALIDATE and allow_invalidate and i < n)
         return f"[{i}]{cop}" if cop else None
     if k == "tsl":
         i = rng.randrange(len(node.children))
@@ -131,7 +132,8 @@ def gen_cscript(rng, shape_name, start, end, *, effective=False, allow_invalidat
             out.append(f"{t}|I")
             continue
         for _ in range(nops):
-            op = gen_op(rng, node, effective, universe, allow_invalidate and not container)
+            dynlist = node.kind == "tsl" and node.shape[1] == 0
+            op = gen_op(rng, node, effective, universe, allow_invalidate and (not container or dynlist))
             if op is None:
                 continue
             node.apply(op, t)
